@@ -307,10 +307,65 @@ pub fn run_idle(seed: u64) -> String {
     }
 }
 
+/// what a request carries along in its extensions: the last owner of a handle of the SAME connection
+#[derive(Clone)]
+struct Holder(#[allow(dead_code)] Arc<std::sync::Mutex<Option<h2::SendStream<Bytes>>>>);
+
+/// C20: a message handed to the library may own handles of that very connection (an application keeps the upload
+/// stream of one exchange in the extensions of the next request); whatever the library does with the message, it
+/// does not run such a destructor while it holds its own lock — the call returns, other handles stay usable.
+pub fn run_ext(seed: u64) -> String {
+    let (tx, rx) = std::sync::mpsc::channel::<Result<(), String>>();
+    std::thread::spawn(move || {
+        let rt = match tokio::runtime::Builder::new_multi_thread().worker_threads(3).enable_time().build() {
+            Ok(r) => r,
+            Err(e) => {
+                let _ = tx.send(Err(format!("harness runtime {:?}", e)));
+                return;
+            }
+        };
+        let r: Result<(), String> = rt.block_on(async move {
+            let (cio, sio) = tokio::io::duplex(65536);
+            tokio::spawn(async move {
+                let mut conn = match h2::server::handshake(sio).await {
+                    Ok(c) => c,
+                    Err(_) => return,
+                };
+                while let Some(Ok((_req, mut resp))) = conn.accept().await {
+                    let _ = resp.send_response(http::Response::new(()), true);
+                }
+            });
+            let (mut sr, conn) = h2::client::handshake(cio).await.map_err(|e| format!("client hs {:?}", e))?;
+            tokio::spawn(async move {
+                let _ = conn.await;
+            });
+            let req1 = http::Request::builder().method("POST").uri("http://example.com/up").body(()).unwrap();
+            let (rf1, ss1) = sr.send_request(req1, false).map_err(|e| format!("send_request {:?}", e))?;
+            let mut req2 = http::Request::builder().uri("http://example.com/next").body(()).unwrap();
+            req2.extensions_mut().insert(Holder(Arc::new(std::sync::Mutex::new(Some(ss1)))));
+            // the call that must return
+            let (rf2, _ss2) = sr.send_request(req2, true).map_err(|e| format!("send_request 2 {:?}", e))?;
+            let _ = tokio::time::timeout(Duration::from_secs(5), rf2).await;
+            drop(rf1);
+            Ok(())
+        });
+        let _ = tx.send(r);
+    });
+    match rx.recv_timeout(Duration::from_secs(25)) {
+        Ok(Ok(())) => format!("ok ext seed={}", seed),
+        Ok(Err(e)) => format!("FAIL C20 harness: {} seed={}", e.replace(' ', "_"), seed),
+        Err(_) => format!(
+            "FAIL C20 send_request_did_not_return_within_25_s_for_a_request_whose_extensions_own_a_handle_of_the_same_connection seed={}",
+            seed
+        ),
+    }
+}
+
 pub fn handle(ws: &[&str]) -> Option<String> {
     match ws {
         ["thr_run", seed] => Some(run(seed.parse().ok()?)),
         ["thr_idle", seed] => Some(run_idle(seed.parse().ok()?)),
+        ["thr_ext", seed] => Some(run_ext(seed.parse().ok()?)),
         _ => None,
     }
 }
@@ -320,6 +375,9 @@ pub fn generate(seed: u64, cases: usize, out: &mut dyn std::io::Write) {
         writeln!(out, "thr_run {}", seed.wrapping_mul(1_000_003).wrapping_add(i as u64)).unwrap();
         if i % 2 == 0 {
             writeln!(out, "thr_idle {}", seed.wrapping_mul(1_000_003).wrapping_add(i as u64)).unwrap();
+        }
+        if i % 10 == 0 {
+            writeln!(out, "thr_ext {}", seed.wrapping_mul(1_000_003).wrapping_add(i as u64)).unwrap();
         }
     }
 }
